@@ -49,7 +49,9 @@ def cmp_number(path, mv, iv, out, stats, kind_strict=True):
         if ik != "int" and kind_strict:
             out.append("%s: kind %s, expected int" % (path, ik))
             return
-        if ik not in ("int", "float", "complex") or complex(iv) != zval(mv["v"]):
+        z = zval(mv["v"])
+        same = (int(iv) == z) if ik == "int" else (ik in ("float", "complex") and complex(iv) == z)
+        if not same:
             out.append("%s: value %r, expected %d" % (path, iv, zval(mv["v"])))
         return
     if ik not in ("int", "float", "complex") or (kind_strict and ik != k):
